@@ -113,16 +113,17 @@ func (o *IntOperation) LE(left Operand, right Operand) (bool, error) {
 }
 
 func (o *IntOperation) IN(left Operand, right Operand) (bool, error) {
-	leftVal, ok := left.(int)
-	if !ok {
-		return false, newErrInvalidOperand(left, leftVal)
-	}
 	rightVal, ok := right.([]int)
 	if !ok {
 		return false, newErrInvalidOperand(right, rightVal)
 	}
+	// membership uses the equality of EQ, for every numeric attribute type
 	for _, num := range rightVal {
-		if num == leftVal {
+		c, ordered, err := o.cmp(left, num)
+		if err != nil {
+			return false, err
+		}
+		if ordered && c == 0 {
 			return true, nil
 		}
 	}
